@@ -219,7 +219,13 @@ case(C + "gen_to_list", params={"xs": List(INT)}, returns=List(INT), requires=["
      gen=lambda rng: {"xs": ints(rng, a=0, b=5)})
 
 # Python evaluates the generator lazily (it sees what this very extend() has appended): not the comprehension semantics -> refused
-case(C + "extend_lazy", params={"xs": List(INT), "src": List(INT)}, returns=List(INT), modifies=["xs"], expect="unsupported", msg="lazily")
+case(C + "extend_lazy_other", params={"xs": List(INT), "src": List(INT)}, returns=List(INT), modifies=["xs"], expect="unsupported", msg="lazily")
+# .. except the de-duplicating form `xs.extend(g for g in src if g not in xs)`, whose real (fold) semantics is encoded (round 4)
+case(C + "extend_lazy", params={"xs": List(INT), "src": List(INT)}, returns=List(INT), modifies=["xs"], portfolio=["cvc5"],
+     ensures={"same": "result == xs", "prefix": "xs[:len(old(xs))] == old(xs)", "covers": "all(g in xs for g in src)",
+              "new-distinct": "all(all(xs[j] != xs[k] for k in range(j + 1, len(xs))) for j in range(len(old(xs)), len(xs)))"},
+     canaries={"eager": "len(xs) == len(old(xs)) + len([g for g in src if g not in old(xs)])", "unchanged": "xs == old(xs)"},
+     gen=lambda rng: {"xs": ints(rng, a=0, b=3), "src": ints(rng, hi=5, a=0, b=4)})
 
 case(C + "or_empty", params={"langs": List(STR)}, returns=INT,
      ensures={"n": "result == ite(len(langs) == 0, 1, len(langs))"}, canaries={"len": "result == len(langs)"},
@@ -449,3 +455,46 @@ case(
     canaries={"eager": "result == [a, b, a]", "always-two": "len(result) == 2"},
     gen=lambda rng: {"a": rng.randint(0, 2), "b": rng.randint(0, 2)},
 )
+
+# ---- `(x,) = S` for a set of exactly one element (round 4) --------------------------------------------------------------------
+case(C + "only_member", params={"groups": Dict(STR, Set(STR)), "k": STR}, returns=STR,
+     requires=["k in groups", "any(groups[k] == {e} for e in groups[k])"],
+     ensures={"member": "result in groups[k]", "all": "groups[k] == {result}"},
+     canaries={"const": "result == 'a'"},
+     gen=lambda rng: {"groups": {"x": [rng.choice(["a", "b"])], "y": ["c"]}, "k": rng.choice(["x", "y"])},
+     build=lambda d: {"groups": {k: set(v) for k, v in d["groups"].items()}, "k": d["k"]})
+case(C + "only_member", name="unguarded", params={"groups": Dict(STR, Set(STR)), "k": STR}, returns=STR,
+     requires=["k in groups"], must_fail=["safe.ValueError"],
+     gen=lambda rng: {"groups": {"x": ["a"]}, "k": "x"}, build=lambda d: {"groups": {k: set(v) for k, v in d["groups"].items()}, "k": d["k"]}, n=3)
+case(C + "only_member", name="len-one", params={"groups": Dict(STR, Set(STR)), "k": STR}, returns=STR,
+     requires=["k in groups", "len(groups[k]) == 1"],
+     ensures={"member": "result in groups[k]", "all": "groups[k] == {result}"},
+     canaries={"const": "result == 'a'"},
+     gen=lambda rng: {"groups": {"x": [rng.choice(["a", "b"])], "y": ["c"]}, "k": rng.choice(["x", "y"])},
+     build=lambda d: {"groups": {k: set(v) for k, v in d["groups"].items()}, "k": d["k"]})
+
+# ---- itertools.product(a, b) (round 4) -------------------------------------------------------------------------------------------
+case(C + "product_count", params={"xs": List(INT), "ys": List(INT)}, returns=INT, locals={"n": INT},
+     ensures={"bound": "0 <= result and result <= len(xs) * len(ys)", "none": "implies(all(x < 0 for x in xs), result == 0)"},
+     canaries={"all": "result == len(xs) * len(ys)", "zero": "result == 0"},
+     loops={"for (a, b) in itertools.product(xs, ys)": Loop(index="i", invariants={"b": "0 <= n and n <= i", "z": "implies(all(x < 0 for x in xs), n == 0)"})},
+     gen=lambda rng: {"xs": ints(rng, hi=3), "ys": ints(rng, hi=3)})
+case(C + "product_all", params={"xs": List(INT), "ys": List(INT)}, returns=BOOL,
+     ensures={"nonneg": "implies(all(x >= 0 for x in xs) and all(y >= 0 for y in ys), result)",
+              "witness": "implies(len(xs) > 0 and len(ys) > 0 and xs[0] + ys[0] < 0, not result)"},
+     canaries={"always": "result", "never": "not result"},
+     gen=lambda rng: {"xs": ints(rng, hi=3), "ys": ints(rng, hi=3)})
+case(C + "product_small", params={"x": INT, "y": INT}, returns=List(INT),
+     ensures={"exact": "result == [x * 10 + y, x * 10 + 4, 20 + y, 24]"},
+     canaries={"inner-first": "result == [x * 10 + y, 20 + y, x * 10 + 4, 24]", "short": "len(result) == 2"},
+     gen=lambda rng: {"x": rng.randint(0, 9), "y": rng.randint(0, 9)})
+
+# ---- sorted(d.items()) with tuple keys (round 4) ------------------------------------------------------------------------------------
+case(C + "sorted_items_tuple_keys", params={"d": Dict(TupleOf(STR), INT)}, returns=List(TupleOf(STR)), locals={"out": List(TupleOf(STR))}, sorted_axioms=True, portfolio=["cvc5"],
+     ensures={"len": "len(result) == len(d)", "keys": "all(k in d for k in result)", "by-key": "all(result[j] == sorted(d)[j] for j in range(len(result)))",
+              "stable-term": "all(sorted(d.items())[j][1] == d[sorted(d)[j]] for j in range(len(d)))"},
+     canaries={"empty": "len(result) == 0", "by-value": "all(d[result[j]] <= d[result[j + 1]] for j in range(len(result) - 1))"},
+     loops={"for (k, v) in sorted(d.items())": Loop(index="i", invariants={"n": "len(out) == i", "in": "all(k in d for k in out)",
+                                                                             "eq": "all(out[j] == sorted(d)[j] for j in range(i))"})},
+     gen=lambda rng: {"d": [[list(rng.sample(["a", "b", "c"], rng.randint(0, 2))), rng.randint(0, 3)] for _ in range(rng.randint(0, 3))]},
+     build=lambda dd: {"d": {tuple(k): v for k, v in dd["d"]}})
